@@ -320,6 +320,9 @@ def rewrite_body(body, mode, stats):
     # R6: map_err(|error| StdError::generic_err(format!("{}", error)))
     body = apply_counted(r'\.map_err\(\s*\|error\|\s*StdError::generic_err\(\s*format!\(\s*"\{\}"\s*,\s*error\s*\)\s*\)\s*\)',
                          '.map_err_erased()', body, stats, 'R6_map_err')
+    # R6: map_err(|e| StdError::generic_err(<any message>)) -> map_err_erased(): Ok is kept, an Err becomes some StdError (error texts are
+    # not modelled: no contract speaks about one)
+    body = replace_balanced(body, r'\.map_err\(\s*\|\s*\w+\s*\|\s*StdError::generic_err\(', '(', ')', '.map_err_erased(', stats, 'R6_map_err')
     # R6: generic_err(format!(..)) -> generic_err("")
     body = replace_balanced(body, r'StdError::generic_err\(\s*format!\(', '(', ')', 'StdError::generic_err("" /*erased*/', stats, 'R6_format')
     # the replace above consumed "format!( ... )" only; the closing paren of generic_err stays
@@ -339,6 +342,9 @@ def rewrite_body(body, mode, stats):
     body = apply_counted(r'position_bucket\(\s*([\w.]+)\s*\)\s*\.save\(', r'position_bucket_save(\1, ', body, stats, 'R11_storage_prim')
     body = apply_counted(r'position_bucket\(\s*([\w.]+)\s*\)\s*\.remove\(', r'position_bucket_remove(\1, ', body, stats, 'R11_storage_prim')
     body = apply_counted(r'position_bucket_read\(\s*([\w.]+)\s*\)\s*\.may_load\(', r'position_bucket_may_load(\1, ', body, stats, 'R11_storage_prim')
+    # R11: the engine's per-vAMM bucket (helper fns vamm_map_bucket / vamm_map_bucket_read wrap bucket(storage, KEY_VAMM_MAP))
+    body = apply_counted(r'vamm_map_bucket\(\s*([\w.]+)\s*\)\s*\.save\(', r'bucket_save__KEY_VAMM_MAP(\1, ', body, stats, 'R11_storage_prim')
+    body = apply_counted(r'vamm_map_bucket_read\(\s*([\w.]+)\s*\)\s*\.may_load\(', r'bucket_may_load__KEY_VAMM_MAP(\1, ', body, stats, 'R11_storage_prim')
     # R11: cw_storage_plus Item / Map constants
     body = apply_counted(r'\b([A-Z][A-Z_]+)\.may_load\(', r'item_may_load__\1(', body, stats, 'R11_storage_prim')
     body = apply_counted(r'\b([A-Z][A-Z_]+)\.save\(', r'item_save__\1(', body, stats, 'R11_storage_prim')
